@@ -43,6 +43,9 @@ def cases(seed, tier):
         out.append({"fam": "mob", "site": kinds[i % 4], "seed": [seed, 4, 1000 + i], "count": 2})
     for i in range(12 if q else 150):
         out.append({"fam": "straight", "seed": [seed, 4, 10 ** 5 + i], "count": 2})
+    for i in range(3 if q else 24):
+        # one cell with very many neighbours (128..149 internal interfaces)
+        out.append({"fam": "hub", "seed": [seed, 4, 2 * 10 ** 5 + i], "count": 1})
     return out
 
 
@@ -330,9 +333,12 @@ def _tissue_case(case, mon, sigs, hist, metrics):
         base = tissue.voronoi(rng, n=int(rng.integers(10, 60)), kind=case.get("site", "hex"))
         if case["fam"] == "mob":
             at = tissue.random_mobius(rng, base, strength=10 ** rng.uniform(-1.5, 0.8), max_phi=0.7)
+        elif case["fam"] == "hub":
+            at = tissue.bulge(rng, tissue.lattice("rosette", int(rng.integers(128, 150)), int(rng.integers(9))), 0.05)
+            at.T = {kk: float(rng.uniform(0.5, 1.5)) for kk in at.E}
         else:
             at = base
-        if rng.random() < 0.4:
+        if rng.random() < 0.4 and case["fam"] != "hub":
             at = at.sub(tissue.random_connected_subset(rng, at, int(rng.integers(3, len(at.cells) + 1))))
         at, posed = scen.pose(rng, at, mode=["id", "rot", "sim", "reflect"][int(rng.integers(4))])
         k = int(rng.integers(1, 16))
@@ -344,6 +350,9 @@ def _tissue_case(case, mon, sigs, hist, metrics):
             fr = frames.Frame(0, r.vertices, r.edges, r.cells)
             if not fr.internal_big_edges:
                 continue
+            # reference tensions, as a Surface Evolver dump provides them: they must never enter the pressure equations
+            for b_ in fr.big_edges.values():
+                b_.gt = float(rng.uniform(0.5, 2.0))
             solver = fs.ForSys({0: fr})
             pmap, inv = scen.physical_maps(r)
             keys = [pmap[tuple(b.get_vertices_ids())] for b in fr.internal_big_edges]
@@ -376,6 +385,7 @@ def _tissue_case(case, mon, sigs, hist, metrics):
                     mon.fail("straight-pressure", "all pressures vanish on a straight-edged tissue", max=mx)
             # linearity: scale and add
             T2 = rng.uniform(0.2, 2.0, len(T))
+            T2[rng.random(len(T)) < 0.25] = 0.0        # slack interfaces: exactly zero is a legitimate tension
             alpha = float(rng.uniform(0.3, 3.0))
             cur2 = run(T2)
             cur3 = run(alpha * T / T.mean() + T2)
